@@ -9,6 +9,265 @@ pub fn run(ctx: &Ctx) {
         Box::new(|| crate::c08::explore(ctx, &obs::cm_roundtrip)),
         Box::new(|| crate::c09::explore(ctx, &obs::bloom_roundtrip)),
         Box::new(|| crate::c10::explore(ctx, &obs::td_roundtrip)),
+        Box::new(|| fi_u64_and_strings(ctx)),
     ];
     jobs.par_iter().for_each(|j| j());
+}
+
+// ------------------------------------------------------------------------------------------
+// Frequent Items with u64 and String items: the i64 explorer above cannot reach these
+// deserialize/serialize instantiations, so a finite family of histories is enumerated here.
+
+use crate::common::catch;
+use crate::spec_misc::{self, FiItems};
+use datasketches::frequencies::{ErrorType, FrequentItemsSketch};
+use serde_json::{Value, json};
+use std::collections::BTreeMap;
+
+/// A history is a list of (item index, weight); item values come from the per-type domain.
+fn fi_histories(size: usize) -> Vec<(&'static str, Vec<(usize, u64)>)> {
+    let cap = size * 3 / 4;
+    let mut v: Vec<(&'static str, Vec<(usize, u64)>)> = vec![];
+    v.push(("empty", vec![]));
+    v.push(("one item", vec![(0, 1)]));
+    v.push(("one heavy item", vec![(1, 1u64 << 40)]));
+    for (name, n) in [("capacity-1 distinct", cap.saturating_sub(1)), ("capacity distinct", cap), ("capacity+1 distinct (purge)", cap + 1), ("3x capacity distinct", 3 * cap)] {
+        v.push((name, (0..n).map(|i| (i, 1 + (i as u64 % 3))).collect()));
+    }
+    v.push(("heavy hitters among noise", (0..4 * cap).map(|i| if i % 3 == 0 { (i % 2, 50) } else { (2 + i, 1) }).collect()));
+    v.push(("purged to nothing", (0..cap + 1).map(|i| (i, 1)).collect()));
+    v.push(("repeats only", (0..40).map(|i| (i % 3, 7)).collect()));
+    v
+}
+
+fn fi_typed<T>(ctx: &Ctx, tname: &str, strings: bool, item: &(dyn Fn(usize) -> T + Sync), enc: &(dyn Fn(&T) -> Vec<u8> + Sync)) -> u64
+where
+    T: Clone + Eq + std::hash::Hash + Ord + std::fmt::Debug + Send + Sync,
+    FrequentItemsSketch<T>: FiCodec<T>,
+{
+    let mut n = 0u64;
+    for size in [8usize, 16, 64, 512] {
+        for (hname, hist) in fi_histories(size) {
+            for via_merge in [false, true] {
+                n += 1;
+                let mk = || json!({"kind":"fi_typed","items":tname,"size":size,"history":hname,"via_merge":via_merge});
+                let r = catch(|| {
+                    let mut s = FrequentItemsSketch::<T>::new(size);
+                    let mut truth: BTreeMap<T, u64> = BTreeMap::new();
+                    let (first, second) = hist.split_at(if via_merge { hist.len() / 2 } else { hist.len() });
+                    for &(i, w) in first {
+                        s.update_with_count(item(i), w);
+                        *truth.entry(item(i)).or_insert(0) += w;
+                    }
+                    if via_merge {
+                        let mut o = FrequentItemsSketch::<T>::new(size);
+                        for &(i, w) in second {
+                            o.update_with_count(item(i), w);
+                            *truth.entry(item(i)).or_insert(0) += w;
+                        }
+                        s.merge(&o);
+                    }
+                    (s, truth)
+                });
+                let (s, truth) = match r {
+                    Ok(x) => x,
+                    Err(p) => {
+                        ctx.violation(&format!("panic|{}", p.site_key()), &format!("FI<{tname}> history panicked: {}", p.message), mk());
+                        continue;
+                    }
+                };
+                let img = match catch(|| s.ser()) {
+                    Ok(b) => b,
+                    Err(p) => {
+                        ctx.violation(&format!("panic|{}", p.site_key()), &format!("FI<{tname}> serialize panicked: {}", p.message), mk());
+                        continue;
+                    }
+                };
+                let with_img = || {
+                    let mut v = mk();
+                    v["image_hex"] = Value::String(crate::common::hex(&img[..img.len().min(4096)]));
+                    v
+                };
+                // independent decode: the image holds exactly the active rows
+                match spec_misc::fi_decode(&img, strings) {
+                    Err(e) => {
+                        ctx.violation(&format!("fi.{tname}.image.undecodable"), &format!("own image does not follow the layout: {e}"), with_img());
+                        continue;
+                    }
+                    Ok(im) => {
+                        let tw: u64 = truth.values().sum();
+                        let rows: Vec<Vec<u8>> = match &im.items {
+                            FiItems::Longs(v) => v.iter().map(|x| x.to_le_bytes().to_vec()).collect(),
+                            FiItems::Strings(v) => v.clone(),
+                        };
+                        let mut bad = None;
+                        if im.total_len != img.len() {
+                            bad = Some(format!("{} trailing bytes", img.len() - im.total_len));
+                        } else if im.empty != (tw == 0) || (!im.empty && im.stream_weight != tw) {
+                            bad = Some(format!("stream weight {} / empty {} but {tw} was offered", im.stream_weight, im.empty));
+                        } else if rows.len() != s.num_active_items() {
+                            bad = Some(format!("{} rows but {} active items", rows.len(), s.num_active_items()));
+                        } else {
+                            for (x, &tv) in truth.iter() {
+                                let key = enc(x);
+                                let pos = rows.iter().position(|r| *r == key);
+                                let (lb, ub) = (s.lower_bound(x), s.upper_bound(x));
+                                match pos {
+                                    Some(p) => {
+                                        if im.counts[p] != lb || im.counts[p] + im.offset != ub {
+                                            bad = Some(format!("row {:?}: count {} offset {} but bounds [{lb},{ub}]", x, im.counts[p], im.offset));
+                                        }
+                                    }
+                                    None => {
+                                        if lb != 0 || ub != im.offset {
+                                            bad = Some(format!("untracked {:?}: bounds [{lb},{ub}] with offset {}", x, im.offset));
+                                        }
+                                    }
+                                }
+                                if lb > tv || ub < tv {
+                                    bad = Some(format!("item {:?}: bounds [{lb},{ub}] do not bracket the exact count {tv}", x));
+                                }
+                            }
+                        }
+                        if let Some(w) = bad {
+                            ctx.violation(&format!("fi.{tname}.image.state"), &format!("FI<{tname}> size {size} {hname}: {w}"), with_img());
+                            continue;
+                        }
+                    }
+                }
+                // round trip
+                let d = match catch(|| FrequentItemsSketch::<T>::de(&img)) {
+                    Err(p) => {
+                        ctx.violation(&format!("panic|{}", p.site_key()), &format!("FI<{tname}> deserialize of own image panicked: {}", p.message), with_img());
+                        continue;
+                    }
+                    Ok(Err(e)) => {
+                        ctx.violation(&format!("fi.{tname}.roundtrip.rejected"), &format!("deserialize(serialize(s)) fails: {e}"), with_img());
+                        continue;
+                    }
+                    Ok(Ok(d)) => d,
+                };
+                let obs = |k: &FrequentItemsSketch<T>| {
+                    let mut q: Vec<(u64, u64, u64)> = truth.keys().map(|x| (k.estimate(x), k.lower_bound(x), k.upper_bound(x))).collect();
+                    let unseen = item(1_000_003);
+                    q.push((k.estimate(&unseen), k.lower_bound(&unseen), k.upper_bound(&unseen)));
+                    let rows = |e: ErrorType| {
+                        let mut r: Vec<(T, u64, u64, u64)> = k.frequent_items(e).iter().map(|r| (r.item().clone(), r.estimate(), r.lower_bound(), r.upper_bound())).collect();
+                        r.sort();
+                        r
+                    };
+                    (k.total_weight(), k.maximum_error(), k.num_active_items(), k.is_empty(), k.lg_max_map_size(), k.maximum_map_capacity(), q, rows(ErrorType::NoFalsePositives), rows(ErrorType::NoFalseNegatives))
+                };
+                match catch(|| (obs(&s), obs(&d))) {
+                    Err(p) => {
+                        ctx.violation(&format!("panic|{}", p.site_key()), &format!("FI<{tname}> queries panicked: {}", p.message), with_img());
+                        continue;
+                    }
+                    Ok((a, b)) => {
+                        if a != b {
+                            ctx.violation(&format!("fi.{tname}.roundtrip.queries"), &format!("FI<{tname}> size {size} {hname}: queries differ after a round trip (total {} vs {}, max_error {} vs {}, active {} vs {})", a.0, b.0, a.1, b.1, a.2, b.2), with_img());
+                            continue;
+                        }
+                    }
+                }
+                // re-serialization encodes the same rows
+                let again = d.ser();
+                let norm = |b: &[u8]| spec_misc::fi_decode(b, strings).ok().map(|im| {
+                    let rows: Vec<Vec<u8>> = match &im.items {
+                        FiItems::Longs(v) => v.iter().map(|x| x.to_le_bytes().to_vec()).collect(),
+                        FiItems::Strings(v) => v.clone(),
+                    };
+                    let mut z: Vec<(Vec<u8>, u64)> = rows.into_iter().zip(im.counts.iter().copied()).collect();
+                    z.sort();
+                    (im.lg_max, im.empty, im.stream_weight, im.offset, z)
+                });
+                if norm(&again).is_none() || norm(&again) != norm(&img) {
+                    ctx.violation(&format!("fi.{tname}.roundtrip.reserialize"), &format!("FI<{tname}> size {size} {hname}: re-serialized image encodes a different state"), with_img());
+                    continue;
+                }
+                // long continuation on the restored sketch keeps bracketing the exact counts
+                let r = catch(|| {
+                    let mut dd = d;
+                    let mut t2 = truth.clone();
+                    for i in 0..(2 * size + 8).min(400) {
+                        let x = item(5000 + i % (size + 3));
+                        dd.update_with_count(x.clone(), 1 + (i as u64 % 2));
+                        *t2.entry(x).or_insert(0) += 1 + (i as u64 % 2);
+                    }
+                    let tw: u64 = t2.values().sum();
+                    if dd.total_weight() != tw {
+                        return Some(format!("total_weight {} but exact {tw}", dd.total_weight()));
+                    }
+                    for (x, &tv) in t2.iter() {
+                        let (lb, ub) = (dd.lower_bound(x), dd.upper_bound(x));
+                        if lb > tv || ub < tv || ub - lb > dd.maximum_error() {
+                            return Some(format!("item {:?}: [{lb},{ub}] max_error {} exact {tv}", x, dd.maximum_error()));
+                        }
+                    }
+                    None
+                });
+                match r {
+                    Err(p) => {
+                        ctx.violation(&format!("panic|{}", p.site_key()), &format!("FI<{tname}> continuation panicked: {}", p.message), with_img());
+                    }
+                    Ok(Some(w)) => {
+                        ctx.violation(&format!("fi.{tname}.roundtrip.long_continuation"), &format!("FI<{tname}> size {size} {hname}: after more updates on the restored sketch: {w}"), with_img());
+                    }
+                    Ok(None) => {}
+                }
+            }
+        }
+    }
+    n
+}
+
+/// serialize/deserialize are inherent per-type methods; this trait lets `fi_typed` be generic
+pub trait FiCodec<T> {
+    fn ser(&self) -> Vec<u8>;
+    fn de(b: &[u8]) -> Result<FrequentItemsSketch<T>, datasketches::error::Error>;
+}
+impl FiCodec<u64> for FrequentItemsSketch<u64> {
+    fn ser(&self) -> Vec<u8> {
+        self.serialize()
+    }
+    fn de(b: &[u8]) -> Result<Self, datasketches::error::Error> {
+        Self::deserialize(b)
+    }
+}
+impl FiCodec<String> for FrequentItemsSketch<String> {
+    fn ser(&self) -> Vec<u8> {
+        self.serialize()
+    }
+    fn de(b: &[u8]) -> Result<Self, datasketches::error::Error> {
+        Self::deserialize(b)
+    }
+}
+
+pub fn fi_u64_and_strings(ctx: &Ctx) {
+    // u64 items beyond the i64 range and String items of awkward shapes
+    let u = |i: usize| -> u64 {
+        match i % 5 {
+            0 => i as u64,
+            1 => u64::MAX - i as u64,
+            2 => (1u64 << 63) + i as u64,
+            3 => (i as u64) << 32,
+            _ => (i as u64).wrapping_mul(0x9E37_79B9_7F4A_7C15),
+        }
+    };
+    let n1 = fi_typed::<u64>(ctx, "u64", false, &u, &|x: &u64| x.to_le_bytes().to_vec());
+    let s = |i: usize| -> String {
+        match i % 6 {
+            0 if i == 0 => String::new(),
+            0 => format!("item{i}"),
+            1 => "x".repeat(1 + i % 300),
+            2 => format!("é{i}ü漢字"),
+            3 => format!("{i}\u{0}nul"),
+            4 => format!("{}", i as u64 * 0x1_0000_0001),
+            _ => format!(" {i} "),
+        }
+    };
+    let n2 = fi_typed::<String>(ctx, "String", true, &s, &|x: &String| x.as_bytes().to_vec());
+    ctx.count("Frequent Items u64/String histories (size x history x via merge)", n1 + n2);
+    ctx.add_states(n1 + n2);
+    ctx.add_transitions(n1 + n2);
 }
